@@ -259,7 +259,22 @@ def _bare_dot(spec):
     return "other"
 
 
+NA_DIGITS = "\u0663\uff12"          # ARABIC-INDIC DIGIT THREE, FULLWIDTH DIGIT TWO: str.isdigit() but not ASCII
+NA_ALPHABET = "<.^#+015LWzmc-"       # the structural context of the non-ASCII-digit pass (+ the digit symbols)
+
+
+def non_ascii_digit(spec):
+    """False, or where the first non-ASCII decimal digit of *spec* sits ("base" / "style")."""
+    for i, ch in enumerate(spec):
+        if ch.isdigit() and not ch.isascii():
+            return "style" if "+" in spec[:i] else "base"
+    return False
+
+
 def _sig(spec, **kw):
+    na = non_ascii_digit(spec)
+    if na:
+        kw["non_ascii_digit"] = na
     sh = shape_of(spec)
     if sh["bare_dot"]:
         for k in ("style", "exc", "why"):
@@ -575,6 +590,48 @@ def iterator_style_case(col, L, style, spec):
         p2.close()
 
 
+def urwid_first_case(col, L, style, spec):
+    """Entry-point ordering within one execution: UrwidImage(image, spec) first, then format(image, spec), then
+    ImageIterator(image, 1, spec) - the same specifier string each time.  What the widget does with its own copy
+    of the parsed values must not reach the later uses: each still denotes exactly the documented arguments."""
+    from PIL import Image
+
+    case = dict(kind="urwid-first", style=style, spec=spec)
+    world.setup(IDENT[style], TERM[0], TERM[1], cell=CELL)
+    cls = classes(L)[style]
+    ref = ref_parse(spec, style)
+    if ref[0] != "ok":
+        raise world.HarnessError(f"urwid_first_case needs a sentence, got {spec!r}")
+    pil = Image.open(_GIF)
+    try:
+        img = cls(pil, width=2, height=1)
+        h, w, v, ht, alpha = resolve(ref[1], TERM)
+        explicit = img._format_render(img._renderer(img._render_image, alpha, **ref[2]), h, w, v, ht)
+        widget = L.urwid_mod.UrwidImage(img, spec)
+        col.count(3)
+        col.inc("urwid_first_cases")
+        compare(col, L, style, cls, spec, ref, "urwid-first", impl_check(L, cls, spec))
+        got = format(img, spec)
+        if got != explicit:
+            col.violation(dict(clause="format-equals-explicit", style=style, after="UrwidImage"),
+                          f"{style}: after UrwidImage(image, {spec!r}), format(image, {spec!r}) differs from the "
+                          f"explicit composition with the documented arguments {ref[2]!r}: {got[:80]!r}... vs "
+                          f"{explicit[:80]!r}...", case)
+        it = L.common.ImageIterator(img, 1, spec)
+        try:
+            frame = next(it)
+        finally:
+            it.close()
+        img.seek(0)
+        if frame != explicit:
+            col.violation(dict(clause="entry-point-format", via="ImageIterator", style=style, after="UrwidImage"),
+                          f"{style}: after UrwidImage(image, {spec!r}), the first frame of ImageIterator(image, 1, "
+                          f"{spec!r}) differs from the explicit composition with the documented arguments", case)
+        del widget
+    finally:
+        pil.close()
+
+
 # ------------------------------------------------------------------------------------------ spaces
 H_MENU = ["", "<", "|", ">"]
 W_MENU = ["", "0", "1", "10", "007"]
@@ -607,6 +664,27 @@ def single_edits(s):
     return out
 
 
+def gen_non_ascii(prefix, maxlen, symbols):
+    """All strings over NA_ALPHABET + *symbols* starting with *prefix*, of length <= maxlen, that contain at
+    least one of the non-ASCII digit *symbols* (the others belong to part (a))."""
+    for s in gen_prefix(prefix, maxlen, NA_ALPHABET + symbols):
+        for ch in symbols:
+            if ch in s:
+                yield s
+                break
+
+
+def digit_substitutions(sentences, symbols):
+    """Every sentence with one of its ASCII digits replaced by a non-ASCII digit (each position, each symbol)."""
+    out = set()
+    for s in sentences:
+        for i, ch in enumerate(s):
+            if ch in DIGITS:
+                for sym in symbols:
+                    out.add(s[:i] + sym + s[i + 1:])
+    return sorted(out)
+
+
 def gen_prefix(prefix, maxlen, alphabet=ALPHABET):
     """All strings starting with *prefix* of length len(prefix)..maxlen."""
     yield prefix
@@ -633,6 +711,11 @@ def _shard(items):
             specs = [""] + list(ALPHABET)
             check_strings(col, L, specs, "all-strings")
             col.inc("strings_all", len(specs))
+        elif kind == "nonascii":
+            prefix, maxlen, symbols = arg
+            n0 = col.evaluations
+            check_strings(col, L, gen_non_ascii(prefix, maxlen, symbols), "non-ascii-digit")
+            col.inc("strings_non_ascii_digit", (col.evaluations - n0) // 3)
         elif kind == "alpha":
             prefix, maxlen = arg
             check_strings(col, L, gen_prefix(prefix, maxlen, ALPHA_FAMILY), "alpha-family")
@@ -664,6 +747,7 @@ def _shard(items):
             style, specs = arg
             for spec in specs:
                 try:
+                    urwid_first_case(col, L, style, spec)
                     iterator_style_case(col, L, style, spec)
                 except world.HarnessError:
                     raise
@@ -726,6 +810,15 @@ def run(ctx):
     product = menu_product([H_MENU, W_MENU, V_MENU, A_MENU, S_MENU])
     for c in chunks(product, 2000):
         items.append(("list", ("menu-product", c)))
+    # non-ASCII decimal digits: never part of a sentence, wherever a digit may stand
+    na_symbols = NA_DIGITS[:1] if quick else NA_DIGITS
+    na_len = int(opts.get("nalen", 5 if quick else 6))
+    na_alpha = NA_ALPHABET + na_symbols
+    for t in itertools.product(na_alpha, repeat=2):
+        items.append(("nonascii", ("".join(t), na_len, na_symbols)))
+    items.append(("list", ("non-ascii-digit-short", list(na_symbols))))
+    for c in chunks(digit_substitutions(product, na_symbols), 4000):
+        items.append(("list", ("non-ascii-digit-menu", c)))
     edit_base = menu_product([H_EDIT, W_EDIT, V_EDIT, A_EDIT, S_EDIT]) if quick else product
     for c in chunks(edit_base, 40):
         items.append(("edits", c))        # the edits are generated (and deduplicated per chunk) in the worker
@@ -743,6 +836,11 @@ def run(ctx):
         ctx.merge(col)
     if quick is False and maxlen < 6:
         ctx.cap(f"all-strings bound is {maxlen}, DESIGN asks for 6 in the thorough tier")
+    ctx.coverage.update(non_ascii_digit_pass=dict(symbols=[f"U+{ord(c):04X}" for c in na_symbols],
+                                                  context_alphabet=NA_ALPHABET, max_length=na_len,
+                                                  note="all strings over the context alphabet + the symbols up to "
+                                                  "max_length that contain a symbol, plus every menu-product "
+                                                  "sentence with one ASCII digit replaced by a symbol"))
     ctx.coverage.update(alphabet=ALPHABET, alphabet_size=len(ALPHABET), max_length_all_strings=maxlen,
                         alpha_family_alphabet=ALPHA_FAMILY, alpha_family_max_length=alpha_len,
                         menus=dict(h_align=H_MENU, width=W_MENU, vertical=V_MENU, alpha=A_MENU, style=S_MENU),
@@ -785,6 +883,9 @@ def replay(ctx, case):
     elif kind == "iterator":
         _GIF = imgkit.gif(2, 2, 2)
         iterator_style_case(ctx, L, case["style"], case["spec"])
+    elif kind == "urwid-first":
+        _GIF = imgkit.gif(2, 2, 2)
+        urwid_first_case(ctx, L, case["style"], case["spec"])
     else:
         raise world.HarnessError(f"unknown replay case {case!r}")
     print("replayed", kind, file=sys.stderr)
